@@ -762,6 +762,55 @@ static void dataView(long k, vh::Rng &r)
     DataView<T> dd(base);  // default stride = sizeof(T)
     VH_CHECK(dd[n - 1] == exp[n - 1], std::string("C11:DataView<") + E<T>::name() + ">:default-stride", "default stride is not sizeof(T)", ctx);
   }
+  // ---- a history of resets on ONE view: base pointer and stride change independently of each other (same buffer seen
+  //      with another layout, another buffer with the same layout, both, neither); after every reset and on a copy
+  //      of the view, element i is the T at byte offset i*stride of the LAST (pointer, stride) given
+  {
+    size_t maxStride = sizeof(T) * 4, leadMax = 2 * alignof(T);
+    size_t bytes     = leadMax + maxStride * (n - 1) + sizeof(T);
+    std::unique_ptr<unsigned char[]> blockA(new unsigned char[bytes]), blockB(new unsigned char[bytes]);
+    DataView<T> v;
+    const unsigned char *curBase = 0;
+    size_t curStride             = 0;
+    std::string hctx             = ctx + " | reset history:";
+    int steps                    = 3 + (int)r.below(5);
+    for (int st = 0; st < steps; ++st) {
+      int what = st == 0 ? 3 : (int)r.below(4);  // 0 same pointer+new stride, 1 new pointer+same stride, 2 neither changes, 3 both
+      size_t m2 = 1 + r.below(4);
+      unsigned char *nb = (r.chance(1, 2) ? blockA.get() : blockB.get()) + r.below(3) * alignof(T);
+      size_t ns         = sizeof(T) * m2;
+      if (what == 0 || what == 2)
+        nb = const_cast<unsigned char *>(curBase);
+      if (what == 1 || what == 2)
+        ns = curStride;
+      if (what == 0 && ns == curStride)
+        ns = curStride == sizeof(T) ? 2 * sizeof(T) : sizeof(T);
+      for (size_t i = 0; i < bytes; ++i)
+        blockA[i] = (unsigned char)(i * 7 + st), blockB[i] = (unsigned char)(i * 11 + 3 * st);
+      std::vector<T> e2(n);
+      for (size_t i = 0; i < n; ++i) {
+        e2[i] = E<T>::make((uint64_t)k * 1000 + (uint64_t)st * 50 + i);
+        memcpy(nb + i * ns, &e2[i], sizeof(T));
+      }
+      if (ns == sizeof(T) && r.chance(1, 2))
+        v.reset(nb);  // default stride
+      else
+        v.reset(nb, ns);
+      hctx += " reset(" + std::string(nb == curBase ? "same pointer" : "other pointer") + "," + std::to_string(ns) + ")";
+      curBase = nb, curStride = ns;
+      DataView<T> cp(v);
+      for (size_t i = 0; i < n; ++i) {
+        const T &x = v[i];
+        if ((const unsigned char *)&x != curBase + i * curStride || !(x == e2[i]) || (const unsigned char *)&cp[i] != curBase + i * curStride) {
+          vh::violation(std::string("C11:DataView<") + E<T>::name() + ">:element-address-after-reset",
+                        "operator[](" + std::to_string(i) + ") is at byte offset " + std::to_string((long long)((const unsigned char *)&x - curBase)) + ", the last reset gave stride " + std::to_string(curStride), hctx);
+          st = steps;
+          break;
+        }
+      }
+      vh::count("dataview_resets");
+    }
+  }
   vh::count("dataview_layouts");
   vh::evaluated(vh::hash64(vh::hashStr(E<T>::name(), 6), stride * 1000 + n), true);
 }
